@@ -1148,7 +1148,8 @@ def ext(ctx):
                 "request (endpoint discovery with / without cache, one retry, bearer tokens) against local HTTP nodes; Identifiers.tla - the ids "
                 "a resolution is given (pkg/docutil), the document validators, the create result; ClientApi.tla - the four calls of the "
                 "Sidetree client from the options to the request that leaves the client; ClientDoc.tla - the caller's document (keys, "
-                "services, also-known-as) to the document of the request; DocAccess.tla - the readers of pkg/document. A disagreement is reported as NONCONFORMANCE with "
+                "services, also-known-as) to the document of the request; DocAccess.tla - the readers of pkg/document; Builders.tla - the four "
+                "request builders over valid and invalid inputs. A disagreement is reported as NONCONFORMANCE with "
                 "the extension specification, not as a violation of a property.")
     deep = ctx.tier != "quick"
     _, vs = ctx.tlc_pipe("MC_Versions.tla", "MC_Versions.cfg", ["versions-replay"], workers=4,
@@ -1201,6 +1202,15 @@ def ext(ctx):
         rec["members"] = rec["members"][1:] + ["custom"]
 
     ctx.negctl_replay(["clientdoc-replay"], cd["_first_edge"], cdwrong)
+    _, bd = ctx.tlc_pipe("MC_Builders.tla", "MC_Builders.cfg", ["builders-replay"], workers=2,
+                         label="Builders.tla: NewCreateRequest / NewUpdateRequest / NewRecoverRequest / NewDeactivateRequest over valid and "
+                               "invalid inputs (suffix, reveal value, document / patches, multihash code, commitments, key, signer headers, "
+                               "re-use of the signing key, window): refused or built, members of the request and of its suffix data / signed payload")
+
+    def bdwrong(rec):
+        rec["ok"] = not rec["ok"]
+
+    ctx.negctl_replay(["builders-replay"], bd["_first_edge"], bdwrong)
     _, da = ctx.tlc_pipe("MC_DocAccess.tla", "MC_DocAccess.cfg", ["docaccess-replay"], workers=1,
                          label="DocAccess.tla: 33 accessors of pkg/document x 12 shapes of the member they read, alone and among "
                                "other members holding values of every kind")
